@@ -53,6 +53,9 @@ def _may_raise(node: ast.AST) -> bool:
     while stack:
         n = stack.pop()
         if isinstance(n, ast.Call) and _is_total_call(n):
+            f = n.func
+            if isinstance(f, ast.Attribute) and is_logger_expr(f.value) and f.attr not in ("reset",):
+                continue  # logging call: receiver and arguments were already judged total
             stack.extend(ast.iter_child_nodes(n))
             continue
         if isinstance(n, (ast.Call, ast.Yield, ast.YieldFrom, ast.Await)):
@@ -88,6 +91,42 @@ def _is_total_call(c: ast.Call) -> bool:
     # ContextVar.reset(token) with the token obtained from the matching set() does not raise
     if isinstance(f, ast.Attribute) and f.attr == "reset" and len(c.args) == 1 and not c.keywords:
         return True
+    # logging never raises into the caller: Logger.debug/.../log swallow handler and formatting errors (logging.raiseExceptions only prints)
+    if isinstance(f, ast.Attribute) and f.attr in ("debug", "info", "warning", "warn", "error", "exception", "critical", "log") and is_logger_expr(f.value):
+        return all(_total_expr(a) for a in list(c.args) + [k.value for k in c.keywords]) and _total_expr(f.value)
+    return False
+
+
+def is_logger_expr(e: ast.AST) -> bool:
+    """The receiver is a logger: a name / attribute whose last component says so (logger, _logger, log, logging)
+    or a getLogger(...) call."""
+    if isinstance(e, ast.Name):
+        return "log" in e.id.lower()
+    if isinstance(e, ast.Attribute):
+        return "log" in e.attr.lower()
+    if isinstance(e, ast.Call):
+        fn = e.func
+        return (isinstance(fn, ast.Attribute) and fn.attr == "getLogger") or (isinstance(fn, ast.Name) and fn.id == "getLogger")
+    return False
+
+
+def _total_expr(e: ast.AST) -> bool:
+    """Evaluating e cannot raise: constants, names, attribute chains rooted at names/self, f-strings of such, total calls."""
+    if isinstance(e, (ast.Constant, ast.Name)):
+        return True
+    if isinstance(e, ast.Attribute):
+        return _total_expr(e.value)
+    if isinstance(e, ast.JoinedStr):
+        return all(_total_expr(v) for v in e.values)
+    if isinstance(e, ast.FormattedValue):
+        return _total_expr(e.value)
+    if isinstance(e, ast.Call):
+        # getLogger(...) / __import__("logging") chains used to obtain a logger
+        fn = e.func
+        leaf = fn.attr if isinstance(fn, ast.Attribute) else fn.id if isinstance(fn, ast.Name) else None
+        if leaf in ("getLogger", "__import__") and all(isinstance(a, ast.Constant) for a in e.args):
+            return _total_expr(fn) if isinstance(fn, ast.Attribute) else True
+        return _is_total_call(e)
     return False
 
 
